@@ -3,6 +3,7 @@
 run the quick check of its property (or the given checks) with seeds 0..2, undo it straight afterwards, update meta.json."""
 import json, os, subprocess, sys, time
 ROOT = os.path.dirname(os.path.dirname(os.path.abspath(__file__)))
+REPO = os.environ.get("VERIF_REPO", "/repo")     # (a clone of /repo when several copies of /verif rerun seeds in parallel: tools/rerun_seeds_par.sh)
 args = [a for a in sys.argv[1:] if not a.startswith("--")]
 extra = next((a.split("=", 1)[1].split(",") for a in sys.argv[1:] if a.startswith("--checks=")), None)
 ids = args or sorted(os.listdir(os.path.join(ROOT, "seeded")))
@@ -11,13 +12,13 @@ for sid in ids:
     d = os.path.join(ROOT, "seeded", sid); meta = json.load(open(os.path.join(d, "meta.json")))
     if meta.get("neutralised_by_fix"): print(sid, "neutralised by a later fix: skipped"); continue
     checks = extra or [meta["property"]]
-    assert sh("git -C /repo status --porcelain --untracked-files=no").stdout.strip() == "", "/repo not clean"
-    r = sh(f"git -C /repo apply {d}/patch.diff")
+    assert sh(f"git -C {REPO} status --porcelain --untracked-files=no").stdout.strip() == "", "/repo not clean"
+    r = sh(f"git -C {REPO} apply {d}/patch.diff")
     if r.returncode:
         # later fix commits moved the context: the same hunks, applied with fuzz
-        r = sh(f"patch -p1 -F3 --no-backup-if-mismatch -d /repo < {d}/patch.diff")
+        r = sh(f"patch -p1 -F3 --no-backup-if-mismatch -d {REPO} < {d}/patch.diff")
         if r.returncode:
-            sh("git -C /repo checkout -- ."); sh("git -C /repo clean -fdq apischema")
+            sh(f"git -C {REPO} checkout -- ."); sh(f"git -C {REPO} clean -fdq apischema")
             print(sid, "patch does not apply:", (r.stdout + r.stderr)[:200]); continue
         meta["applied_with_fuzz"] = True
     ran = []
@@ -30,7 +31,7 @@ for sid in ids:
                 ran.append({"check": c, "seed": seed, "exit": r.returncode, "lines": lines, "wall_s": round(time.time() - t0, 1)})
                 if r.returncode == 1: break
     finally:
-        sh("git -C /repo checkout -- .")
+        sh(f"git -C {REPO} checkout -- .")
     meta["ran"] = ran; meta["detected_by"] = sorted({x["check"] for x in ran if x["exit"] == 1})
     json.dump(meta, open(os.path.join(d, "meta.json"), "w"), indent=1)
     print(sid, "detected_by", meta["detected_by"], [(x["check"], x["seed"], x["exit"]) for x in ran])
